@@ -7,7 +7,8 @@ From ClapModel Require Import ParseProofs.Safe ParseProofs.Invariant ParseProofs
 From ClapModel Require Import ParseProofs.Actions ParseProofs.Unparse ParseProofs.UnparseProofs ParseProofs.UnparseTop
                               ParseProofs.UnparseSub ParseProofs.UnparseTrail ParseProofs.UnparseTree ParseProofs.UnparseIdx ParseProofs.UnparseIdxTop
                               ParseProofs.UnparseExamples.
-From Coq Require Import ZArith Sorting.Sorted List.
+From ClapModel Require Import Base.Utf8 Lex.OsStrExtModel Lex.OsStrExtProofs ParseProofs.UnparseLift.
+From Coq Require Import ZArith Sorting.Sorted Sorting.Permutation List.
 Import ListNotations.
 Open Scope N_scope.
 
@@ -356,3 +357,87 @@ Proof.
   split; [exact UnparseEx.ex_trail_render|]. exact UnparseEx.ex_trail_parse.
 Qed.
 Print Assumptions C02_unparse_trail_nonvacuous.
+
+(** * Third pass: conjuncts of the class lifted one at a time (ParseProofs/UnparseLift.v ...) *)
+
+(** (1) POSITIONALS ARE LOOKED UP BY KEY, NOT BY DECLARATION ORDER.  For every command passing the validity gate,
+    [get_pos c n] (the lookup [Parser::parse] does for the value at positional counter [n]) answers
+    exactly the argument whose index is [n]; no other argument has that index. *)
+Theorem C02_positional_key_decides : forall c, assert_app c = true -> forall n a,
+  get_pos c n = Some a <-> (In a (c_args c) /\ a_index a = Some n).
+Proof. exact get_pos_key. Qed.
+Print Assumptions C02_positional_key_decides.
+
+Theorem C02_positional_index_unique : forall c, assert_app c = true -> forall a b n,
+  In a (c_args c) -> In b (c_args c) -> a_index a = Some n -> a_index b = Some n -> a = b.
+Proof. exact assert_app_pos_unique. Qed.
+Print Assumptions C02_positional_index_unique.
+
+(** ... so declaring the same arguments in any other order changes no positional lookup *)
+Theorem C02_positional_declaration_order_irrelevant : forall c c', assert_app c = true ->
+  Permutation (c_args c) (c_args c') -> forall n, get_pos c' n = get_pos c n.
+Proof. exact get_pos_perm. Qed.
+Print Assumptions C02_positional_declaration_order_irrelevant.
+
+(** ... and in the denotation of [C02_unparse] / [C02_conservation_tree] a run of values at counter
+    [pos] is one occurrence of THE argument with index [pos] *)
+Theorem C02_positional_run_attribution : forall c, conv c = true -> forall pst pos vs its,
+  wf_items c pst pos (ItPos vs :: its) = true ->
+  exists a, In a (c_args c) /\ a_index a = Some pos /\
+    (forall b, In b (c_args c) -> a_index b = Some pos -> b = a) /\
+    occs c pos (ItPos vs :: its) = occ_of IIndex a vs :: occs c (item_pos c pos (ItPos vs)) its.
+Proof. exact pos_run_attribution. Qed.
+Print Assumptions C02_positional_run_attribution.
+
+(** Non-vacuity: [prog <second>... <first>] with the index-2 positional declared first; the line [A B C]
+    satisfies the hypotheses of [C02_unparse_denote], [A] goes to index 1, [B C] to index 2. *)
+Theorem C02_positional_order_nonvacuous :
+  (is_set s_no_binary_name LiftEx.k0 = false /\ valid (with_bin LiftEx.k0 LiftEx.kbin) = true /\
+   wf_inv LiftEx.kc LiftEx.kinv = true /\
+   no_globals (build_recursive (S (S (depth LiftEx.kc))) (with_bin LiftEx.k0 LiftEx.kbin)) = true /\
+   render_inv LiftEx.kinv = [[65]; [66]; [67]] /\
+   opt_map a_id (hd_error (positionals LiftEx.kc)) = Some [50] /\
+   opt_map a_id (get_pos LiftEx.kc 1) = Some [49] /\ opt_map a_id (get_pos LiftEx.kc 2) = Some [50]) /\
+  exists m, parse_top LiftEx.k0 (LiftEx.kbin :: render_inv LiftEx.kinv) = OOk m /\
+    LiftEx.raw_of [49] m = Some [[[65]]] /\ LiftEx.raw_of [50] m = Some [[[66]; [67]]] /\
+    LiftEx.idx_of_m [49] m = Some [1] /\ LiftEx.idx_of_m [50] m = Some [2; 3].
+Proof. split; [exact LiftEx.ex_order_hyps|exact LiftEx.ex_order_parse]. Qed.
+Print Assumptions C02_positional_order_nonvacuous.
+
+(** (2) DELIMITER SPLITTING IS BYTE LEVEL AND KEEPS EVERY PIECE.  For any command, any argument with a
+    delimiter [d] and ANY byte strings (no UTF-8 condition), the values stored for an occurrence are the
+    concatenation, in order, of the pieces of each raw value, where the pieces of [v] are its leftmost
+    non-overlapping split at the encoded delimiter ([SplitSpec], a functional relation) and re-assemble
+    to [v] -- so [a,,b], [,a], [b,] give [a;"";b], ["";a], [b;""].  Without a delimiter nothing is split. *)
+Theorem C02_delimit_bytes : forall c a d raw, a_delim a = Some d ->
+  exists pss, Forall2 (fun v ps => SplitSpec (encode_utf8 d) v ps /\ intercalate (encode_utf8 d) ps = v) raw pss
+              /\ delimit c a raw None = Some (concat pss).
+Proof. exact delimit_bytes. Qed.
+Print Assumptions C02_delimit_bytes.
+
+Theorem C02_no_delimiter_no_split : forall c a raw ti, a_delim a = None -> delimit c a raw ti = Some raw.
+Proof. exact delimit_none. Qed.
+Print Assumptions C02_no_delimiter_no_split.
+
+(** a value of an OsString-typed argument is never rejected for its bytes *)
+Theorem C02_osstring_never_rejects : forall c a, a_vp a = Some VPOsString -> forall raw st e s,
+  push_arg_values c a raw st <> RErr e s.
+Proof. exact push_os_never_rejects. Qed.
+Print Assumptions C02_osstring_never_rejects.
+
+(** Non-vacuity: [prog --mu a,,b ,a b, --mu=\xff,\xc3 -m\xe9 g\xe9n] on an OsString Append option with
+    delimiter [,] and an OsString positional: hypotheses of [C02_unparse_denote] hold, three values are
+    not UTF-8, the groups keep every (empty) piece, indices count every piece. *)
+Theorem C02_osstring_nonvacuous :
+  (is_set s_no_binary_name LiftEx.o0 = false /\ valid (with_bin LiftEx.o0 LiftEx.kbin) = true /\
+   wf_inv LiftEx.oc LiftEx.oinv = true /\
+   no_globals (build_recursive (S (S (depth LiftEx.oc))) (with_bin LiftEx.o0 LiftEx.kbin)) = true /\
+   render_inv LiftEx.oinv = [[45; 45; 109; 117]; [97; 44; 44; 98]; [44; 97]; [98; 44]; [45; 45; 109; 117; 61; 255; 44; 195];
+                             [45; 109; 233]; [103; 233; 110]] /\
+   utf8_valid [255; 44; 195] = false /\ utf8_valid [233] = false /\ utf8_valid [103; 233; 110] = false) /\
+  exists mm, parse_top LiftEx.o0 (LiftEx.kbin :: render_inv LiftEx.oinv) = OOk mm /\
+    LiftEx.raw_of [109] mm = Some [[[97]; []; [98]; []; [97]; [98]; []]; [[255]; [195]]; [[233]]] /\
+    LiftEx.idx_of_m [109] mm = Some [2; 3; 4; 5; 6; 7; 8; 10; 11; 13] /\
+    LiftEx.raw_of [102] mm = Some [[[103; 233; 110]]] /\ LiftEx.idx_of_m [102] mm = Some [14].
+Proof. split; [exact LiftEx.ex_os_hyps|exact LiftEx.ex_os_parse]. Qed.
+Print Assumptions C02_osstring_nonvacuous.
